@@ -52,7 +52,7 @@ impl<'a> From<(&'a str, &'a str)> for Attribute<'a> {
 
 pub(crate) const ESCAPE_MARK: u8 = 0x01;
 
-#[derive(Clone, Debug, PartialEq, Eq)]
+#[derive(Clone, Copy, Debug, PartialEq, Eq)]
 pub enum AttrError {
     ExpectedEq(usize),
     ExpectedValue(usize),
